@@ -71,7 +71,10 @@ func setup() {
 	blkX2 = cloneBlock(blkX)
 	blkX2.SupLinks.AddSupLink(0, hashG, labnet.VoteSig(net.Keys[0], hashG, hashX), 0)
 	if blkX2.Hash() != hashX {
-		ev.Fatal("a header sup link changes the block hash: the re-issued block of the plan cannot be built")
+		// whether verification links are part of the block hash is C03's subject; the store is not reached
+		run := ev.Start("C21", "model_checking")
+		run.Capped("event alphabet: could not be set up: a header sup link changes the block hash, the re-issued block of the plan cannot be built")
+		run.Finish()
 	}
 	yl := cloneBlock(blkY)
 	yl.SupLinks.AddSupLink(0, hashG, labnet.VoteSig(net.Keys[2], hashG, hashY), 2)
